@@ -413,7 +413,9 @@ contract(
              "den1(result, env) == T(tree, symbols_, env))",
              "conditional_selects_second_or_third_argument":
              "implies(tree.data == 'logicalfunc' and tree.children[0] == 'Conditional' and not sp_is_true(C1) and not sp_is_false(C1), "
-             "den(result, env) == ite(holds(C1, env), den(C2, env), den(C3, env)))"},
+             "den(result, env) == ite(holds(C1, env), den(C2, env), den(C3, env)))",
+             "a_variable_that_is_returned_is_defined":
+             "implies(tree.data == 'variable', str(tree.children[0]) in symbols_)"},
     where={"C1": "expr2symbols_of(tree.children[1], symbols_)", "C2": "expr2symbols_of(tree.children[2], symbols_)",
            "C3": "expr2symbols_of(tree.children[3], symbols_)"},
     loops={0: {"invariant": {"left_fold": "den1(fst, env) == foldT(tree.children, symbols_, env, 1 + 2 * k)"}}},
